@@ -32,6 +32,7 @@ import sys
 sys.path.insert(0, os.path.dirname(os.path.abspath(__file__)))
 import kernels_C06 as KC  # noqa: E402
 import attrs_C06 as AT  # noqa: E402
+import windows_C06 as WN  # noqa: E402
 
 REPO = os.environ.get("VERIF_REPO", "/repo")
 SRC = os.path.join(REPO, "src", "pyunicorn")
@@ -558,7 +559,8 @@ def main():
     for r in table:
         groups.setdefault((r["module"], r["cls"], r["func"]), []).append(r)
     lines = ["/- GENERATED by translate/gen_C06.py from the current /repo working tree — do not edit. -/",
-             "import Pyunicorn.Model.Pure", "namespace Pyunicorn.Generated.StructC06",
+             "import Pyunicorn.Model.Pure", "import Pyunicorn.Model.PureWindow",
+             "namespace Pyunicorn.Generated.StructC06",
              "open Pyunicorn.Pure", ""]
     ents = []
     for (mod, cls, func), rs in sorted(groups.items()):
@@ -627,6 +629,9 @@ def main():
     # ---- named link-attribute slots written / read inside value-returning methods (round 4) --
     attr_tables, attr_gens, value_methods = AT.class_tables(mods, None)
     lines.append(AT.lean_text(attr_tables))
+    # ---- round 5: the statement block around every restored temporary edit -------------------
+    wins = WN.windows(mods, per_func, table)
+    lines.append(WN.lean_text(wins))
     lines.append("end Pyunicorn.Generated.StructC06")
     txt = "\n".join(lines) + "\n"
     if not os.path.exists(out_path) or open(out_path).read() != txt:
@@ -635,7 +640,7 @@ def main():
                "kernel_calls": kcalls, "field_inits": finits, "ctor_aliases": ctor_alias,
                "field_edits": field_edits, "to_cy_copies": TO_CY_FRESH[0],
                "attr_tables": attr_tables, "attr_gens": attr_gens,
-               "value_methods": value_methods}, open(os.path.splitext(out_path)[0] + ".json", "w"),
+               "value_methods": value_methods, "windows": wins}, open(os.path.splitext(out_path)[0] + ".json", "w"),
               indent=1)
     return 0
 
